@@ -13,9 +13,15 @@ covered files without a filter and at least NeedP for partition-only filters.
 import json, os
 from common import *
 
-POOL = ["__HIVE_DEFAULT_PARTITION__", "a b", "a%20b", "a%b", "a/b", "b", "b=c", "é", "a?b#"]
+# single characters of the escape set and of the neighbouring printable ASCII, two-character combinations,
+# and longer values needing escapes
+ESC1 = [" ", "%", "/", "?", "#", "\t"]
+SPECIAL1 = ESC1 + ["=", "'", '"', ".", "..", "+", "&", "a"]
+SPECIAL2 = ["% ", " %", "//", "?#", "#?", "==", "''", "a ", " a", "%2", "%%", "/a", "a/", "+&", ". ", "%25"]
+LONG = ["__HIVE_DEFAULT_PARTITION__", "a b", "a%20b", "a%b", "a/b", "b", "b=c", "é", "a?b#"]
+POOL = SPECIAL1 + SPECIAL2 + LONG
+assert len(set(POOL)) == len(POOL)
 # pool order must be the byte-wise lexicographic order (string comparisons in filters)
-assert POOL[:8] == sorted(POOL[:8], key=lambda s: s.encode()), "pool order"
 POOL_SORTED = sorted(POOL, key=lambda s: s.encode())
 
 
@@ -82,7 +88,39 @@ def eq_leaves(x):
     return None
 
 
+OS_ONLY_ESCAPED = set('"\\{}^`[]<>~|')
+
+
+def raw_os_escape_key(v):
+    """findings/C27-prefix-listing-raw-spelling-object-store-escapes.md: rows/files missing only (never unexpected), an
+    equality on a partition string column whose literal contains a character escaped by object_store but not by the
+    partition encode set, and the lost file lives in a directory that spells that character raw."""
+    c = v.get("case") or {}
+    if v.get("unexpected_rows") or v.get("opened_but_not_covered") or v.get("not_covered") or v.get("bad_partition_values") or v.get("error"):
+        return None
+    lost = (v.get("need_not_opened") or []) + (v.get("dropped") or [])
+    if not lost or not all(any(ch in p for ch in OS_ONLY_ESCAPED) for p in lost):
+        return None
+    pool = c.get("pool") or []
+    def lits(x):
+        if not isinstance(x, dict):
+            return []
+        r = []
+        lv = eq_leaves(x) if x.get("op") == "bin" and x.get("f") == "=" else None
+        if lv:
+            r.append(pool[lv[0][1] - 1])
+        for k in ("l", "r", "e"):
+            r += lits(x.get(k))
+        return r
+    if any(set(s) & OS_ONLY_ESCAPED for s in lits(c.get("filter"))):
+        return "prefix-listing:raw-spelled-directory:value-with-character-escaped-by-object-store-only"
+    return None
+
+
 def known_key(v):
+    k = raw_os_escape_key(v)
+    if k:
+        return k
     """The one known engine defect this check runs into (findings/C27-mixed-orientation-...md):
     dictionary partition column; two conjuncts that both reduce to the same equality col = 'v' (an atom,
     or an OR of such atoms, which the simplifier collapses) but in different orientations; rows missing
@@ -114,15 +152,19 @@ def run(ctx):
                                             "samples": res["samples"] or [{"replay": ctx.replay}]})
         return
     rounds = 6 if ctx.quick else 40
-    nlay, nflt = (12, 8) if ctx.quick else (30, 16)
+    nlay, nflt, neq = (12, 7, 5) if ctx.quick else (30, 14, 8)
     cases = []
     states = 0
     for r in range(rounds):
         np_ = [1, 2, 3, 2, 2, 3][r % 6]
-        sv = sorted(ctx.rng.sample(range(1, len(pool) + 1), 3))
+        # one single escaped character, one other short special value, one arbitrary value
+        pick = {ctx.rng.choice(ESC1), ctx.rng.choice(SPECIAL1[len(ESC1):] + SPECIAL2)}
+        while len(pick) < 3:
+            pick.add(ctx.rng.choice(pool))
+        sv = sorted(pool.index(x) + 1 for x in pick)
         iv = sorted(ctx.rng.sample([1, 2, 10, 7, 100], 2))
         cfg = ctx.path(f"lst{r}.cfg")
-        open(cfg, "w").write(f"CONSTANTS NP = {np_}  SV = {{{', '.join(map(str, sv))}}}  IV = {{{', '.join(map(str, iv))}}}  NLay = {nlay}  NFlt = {nflt}\n"
+        open(cfg, "w").write(f"CONSTANTS NP = {np_}  SV = {{{', '.join(map(str, sv))}}}  IV = {{{', '.join(map(str, iv))}}}  NLay = {nlay}  NFlt = {nflt}  NEq = {neq}\n"
                              "SPECIFICATION Spec\nINVARIANTS Emit\n")
         t = tlc_must_pass(ctx, "files/Listing", cfg=cfg, workers=1, tag=f"lst{r}", mode_args=["-seed", str(ctx.seed * 1000 + r)], timeout=1200)
         got = tlc_cases(t.out)
@@ -158,6 +200,17 @@ def run(ctx):
     never = [m for m in must if cnt.get(m, 0) == 0]
     if never:
         raise ToolError(f"vacuity: listing paths never exercised in this run: {never}")
+    def single_escaped_leading_eq(c):
+        """equality on the leading partition column with a literal that is one character of the escape set, stated once
+        (so the listing-prefix optimisation sees a single value), and some file needs to be read"""
+        eqs = [a for a in conjuncts(c["filter"]) if eq_leaves(a) and len(eq_leaves(a)) == 1]
+        on1 = [eq_leaves(a)[0] for a in eqs if eq_leaves(a)[0][0] == 1]
+        return len(on1) == 1 and pool[on1[0][1] - 1] in ESC1 and len(c["need"]) > 0
+    nsingle = sum(1 for c in cases if single_escaped_leading_eq(c))
+    nsingle3 = sum(1 for c in cases if c["np"] >= 3 and any(eq_leaves(a) and eq_leaves(a)[0][0] == 3 and pool[eq_leaves(a)[0][1] - 1] in SPECIAL1 + SPECIAL2
+                                                           for a in conjuncts(c["filter"])) and len(c["need"]) > 0)
+    if nsingle == 0 or nsingle3 == 0:
+        raise ToolError(f"vacuity: no needed-file case with an equality on a single escaped character (leading: {nsingle}, non-leading: {nsingle3})")
     nneed = sum(1 for c in cases if 0 < len(c["need"]) < sum(1 for f in c["files"] if f["present"] and f["covered"]))
     write_evidence(ctx, "exploration", {
         "evaluations": res["evaluations"],
@@ -167,6 +220,8 @@ def run(ctx):
         "tlc_states": states,
         "cases_from_tlc": len(cases),
         "cases_with_proper_need": nneed,
+        "cases_leading_partition_eq_single_escaped_char_with_needed_files": nsingle,
+        "cases_nonleading_partition_eq_short_special_value_with_needed_files": nsingle3,
         "partition_only_filters": sum(1 for c in cases if c["partonly"]),
         "counters": cnt,
     }, assumptions=[
